@@ -58,15 +58,29 @@ macro_rules | `(tactic| pin_lemma) => `(tactic| with_reducible exact Labels.tryG
 
 /-- `c'` is `c` after reading (not skipping) `c'.pos - c.pos` bytes -/
 def Adv (c c' : Cur) : Prop :=
-  c.pos ≤ c'.pos ∧ c'.len = c.len ∧ c.rest.length = c'.rest.length + (c'.pos - c.pos)
+  c.pos ≤ c'.pos ∧ c'.len = c.len ∧ c.rest.length = c'.rest.length + (c'.pos - c.pos) ∧
+    c'.rest = c.rest.drop (c'.pos - c.pos)
 
-theorem Adv.refl (c : Cur) : Adv c c := ⟨Nat.le_refl _, rfl, by simp⟩
+theorem Adv.refl (c : Cur) : Adv c c := ⟨Nat.le_refl _, rfl, by simp, by simp⟩
 
 theorem Adv.trans {a b c : Cur} (h1 : Adv a b) (h2 : Adv b c) : Adv a c := by
-  unfold Adv at *
+  obtain ⟨p1, l1, n1, r1⟩ := h1
+  obtain ⟨p2, l2, n2, r2⟩ := h2
+  refine ⟨by omega, by omega, by omega, ?_⟩
+  rw [r2, r1, List.drop_drop]
+  congr 1
   omega
 
-theorem splitExact_some : ∀ (k : Nat) (s x r : Bytes), Cur.splitExact k s = some (x, r) → s.length = r.length + k ∧ x.length = k
+/-- reading exactly `k` bytes is the same cursor as skipping `k` bytes -/
+theorem Adv.eq_skip {c c' : Cur} {k : Nat} (h : Adv c c') (hp : c'.pos = c.pos + k) : c' = c.skip k := by
+  obtain ⟨_, l1, _, r1⟩ := h
+  cases c'
+  simp only [Cur.skip] at *
+  subst hp l1
+  simp [r1]
+
+theorem splitExact_some : ∀ (k : Nat) (s x r : Bytes), Cur.splitExact k s = some (x, r) →
+    s.length = r.length + k ∧ x.length = k ∧ r = s.drop k
   | 0, s, x, r, h => by simp [Cur.splitExact] at h; obtain ⟨h1, h2⟩ := h; subst h1 h2; simp
   | k + 1, [], x, r, h => by simp [Cur.splitExact] at h
   | k + 1, a :: s, x, r, h => by
@@ -76,8 +90,11 @@ theorem splitExact_some : ∀ (k : Nat) (s x r : Bytes), Cur.splitExact k s = so
     simp only [Prod.mk.injEq] at h2
     obtain ⟨h3, h4⟩ := h2
     subst h3 h4
-    simp
-    omega
+    obtain ⟨t1, t2, t3⟩ := this
+    refine ⟨?_, ?_, ?_⟩
+    · simp only [List.length_cons]; omega
+    · simp only [List.length_cons]; omega
+    · simpa using t3
 
 theorem Cur.take_spec (k : Nat) (c : Cur) :
     Spec openSites B (c.take k) (fun r => Adv c r.2 ∧ r.2.pos = c.pos + k ∧ r.1.length = k) := by
@@ -85,9 +102,11 @@ theorem Cur.take_spec (k : Nat) (c : Cur) :
   split
   · rename_i x r h
     have := splitExact_some k c.rest x r h
-    refine Spec.ret _ ⟨⟨?_, rfl, ?_⟩, rfl, this.2⟩
+    refine Spec.ret _ ⟨⟨?_, rfl, ?_, ?_⟩, rfl, this.2.1⟩
     · show c.pos ≤ c.pos + k; omega
     · show c.rest.length = r.length + (c.pos + k - c.pos); omega
+    · show r = c.rest.drop (c.pos + k - c.pos)
+      rw [this.2.2]; congr 1; omega
   · exact Spec.fail
 
 theorem Cur.u8_spec (c : Cur) :
